@@ -291,7 +291,7 @@ func runRecorded(cfg gen.Cfg, pre *PCase, main *PCase, poison byte) ([]string, e
 	if err != nil {
 		return nil, err
 	}
-	ps.Poison = poison
+	ps.Poison = poison // 0: zeroed spare capacity
 	if pre != nil {
 		RunHistory(ps, pre, &recObs{})
 		ps.cursor = 0
